@@ -25,7 +25,8 @@ META = {
         "phrases, and the context slice covering the match."
         " Also: the error check covers Twp, Rge and Sec (no constant False switch, wrapper/callee defaults agree), TractParser takes over its parent's flags whenever there is a parent, parallel clause / row shapes of TRS.is_error."
         " Round 7: TractParser starts from the tract's flags whenever Tract.parse replaces them; the description-level error check asks the tracts, not the staged components; TRS.is_error / is_undef decided for all 216 component-state x switch combinations; flag-prefix ambiguity."
-        ' Round 8: gen_flags_chunk() dominates every return of its caller; the pp_twprge_pm wildcard also deletes warning wording (known finding).'),
+        ' Round 8: gen_flags_chunk() dominates every return of its caller; the pp_twprge_pm wildcard also deletes warning wording (known finding).'
+        ' Round 9: keyword pre-test tables are implied by the warning patterns (members enumerated).'),
     'families': ['PAIR', 'TBL', 'ORDER', 'RX-LANG', 'FORWARD', 'DEADPARAM', 'SIB-DEFAULTS'],
 }
 
